@@ -2222,6 +2222,10 @@ func (c *Conn) handleCloseError(closeErr *closeError) {
 		transportErr          *TransportError
 	)
 	var isRemoteClose bool
+	// Nothing is sent in response to a stateless reset (RFC 9000, Section 10.3.1),
+	// nor for a connection attempt that is abandoned in favor of one using another version:
+	// these connections are closed immediately, no matter how the error reached us.
+	immediate := closeErr.immediate
 	var trigger qlog.ConnectionCloseTrigger
 	var reason string
 	var transportErrorCode *qlog.TransportErrorCode
@@ -2232,9 +2236,11 @@ func (c *Conn) handleCloseError(closeErr *closeError) {
 		trigger = qlog.ConnectionCloseTriggerIdleTimeout
 	case errors.As(e, &statelessResetErr):
 		trigger = qlog.ConnectionCloseTriggerStatelessReset
+		immediate = true
 	case errors.As(e, &versionNegotiationErr):
 		trigger = qlog.ConnectionCloseTriggerVersionMismatch
 	case errors.As(e, &recreateErr):
+		immediate = true
 	case errors.As(e, &applicationErr):
 		isRemoteClose = applicationErr.Remote
 		reason = applicationErr.ErrorMessage
@@ -2286,7 +2292,7 @@ func (c *Conn) handleCloseError(closeErr *closeError) {
 		c.connIDGenerator.ReplaceWithClosed(nil, 3*c.rttStats.PTO(false))
 		return
 	}
-	if closeErr.immediate {
+	if immediate {
 		c.connIDGenerator.RemoveAll()
 		return
 	}
